@@ -525,6 +525,18 @@ def r02_11(ctx):
     float_validator_shape(ctx)
 
 
+def r02_12(ctx):
+    """R02.12 what is written is the value of the *current* configuration and is read back under the same name: (a) the side
+    results deciding the marker and the written lines are recomputed by every evaluation (C03 R03.7); (b) every evaluator
+    read is an invalidation edge, so a write after an edit does not emit a cached value (Symbol part of C03 R03.1); (c) the
+    loader applies the rename table only to names that are not defined options (C11 R11.1 guard) - a defined option that is
+    also an old name in a rename file must be read back as itself."""
+    from . import c03, c11
+    from .common import delegate
+    delegate(ctx, c03.r03_7, lambda c: True)
+    delegate(ctx, c03.r03_1, lambda c: c.startswith("Symbol/"))
+    delegate(ctx, c11.r11_1, lambda c: c.endswith(": guard") or "sites agree" in c)
+
 def rules():
-    return [("R02.11", r02_11, 3), ("R02.1", r02_1, 8), ("R02.2", r02_2, 8), ("R02.3", r02_3, 9), ("R02.4", r02_4, 3), ("R02.5", r02_5, 5),
+    return [("R02.12", r02_12, 8), ("R02.11", r02_11, 3), ("R02.1", r02_1, 8), ("R02.2", r02_2, 8), ("R02.3", r02_3, 9), ("R02.4", r02_4, 3), ("R02.5", r02_5, 5),
             ("R02.6", r02_6, 3), ("R02.7", r02_7, 3), ("R02.8", r02_8, 2), ("R02.9", r02_9, 6), ("R02.10", r02_10, 3)]
